@@ -103,8 +103,11 @@ def search(ctx):
                     envx[name] = v
             host = r.pick(["claude", "gemini", "cursor"])
             v = {"claude": {"tool_name": "Bash", "tool_input": {"command": "rm x"}, "command": "rm x", "cwd": w.proj}, "gemini": {"tool_name": "shell", "tool_input": {"command": "rm x"}, "command": "rm x", "cwd": w.proj}, "cursor": {"command": "rm x", "cwd": w.proj}}[host]
+            if r.chance(0.5):
+                # the host's own pre-execution event name travels with the payload even when the mode is forced to another host
+                v = dict(v, hook_event_name={"claude": "PreToolUse", "gemini": "BeforeTool", "cursor": "beforeShellExecution"}[host], session_id="abc123")
             jobs.append({"stdin": json.dumps(v).encode(), "home": w.s.home, "args": args, "env_extra": envx, "cwd": w.proj})
-            metas.append(("rm x", w.proj, None, "probe:" + host, args, envx, False))
+            metas.append(("rm x", w.proj, None, "probe:" + host, args, envx, "hook_event_name" in v))
         results = H.run_many(jobs)
         groups = collections.defaultdict(list)
         for meta, (rc, out, err) in zip(metas, results):
@@ -121,7 +124,10 @@ def search(ctx):
             if host.startswith("probe:"):
                 exp = expected_explicit(args, envx)
                 want_kind = exp or host.split(":")[1]
-                if kind is not None and kind != want_kind:
+                if kind is None and (host != "probe:cursor" or want_kind == "cursor"):
+                    # (a Cursor-shaped payload has no tool_name: read as Claude or Gemini input it is not a shell tool and gets {})
+                    vios.append(dict(base, required=f"`rm x` before execution always gets a verdict, in the {want_kind} envelope, whatever mode is forced", oracle="mode-precedence(no verdict)"))
+                elif kind is not None and kind != want_kind:
                     vios.append(dict(base, required=f"mode = explicit flag/env first (claude > gemini > cursor), input shape otherwise: {want_kind} envelope", oracle="mode-precedence"))
                 continue
             want_kind = host
